@@ -274,7 +274,7 @@ def resolve(world, body, h):
 
 def apply_edit(world, body, ed):
     op = str(ed[0])
-    rs = str(ed[1]) == 'true'
+    rs = str(ed[1]).lower() == 'true'
     if op == 'tr':
         nodes = list(preorder(body))
         mapper = {}
@@ -340,7 +340,7 @@ def _derived_uncached(src, unit, edits):
         if subs and any(isinstance(n, ir.Conditional) and n.inline for n in preorder(w.body)):
             # an inline IF and its body statement share one Source *object*: invalidating either flags both (not modelled)
             raise Unsupported('substitution with inline conditionals')
-        if subs and str(subs[0][1]) == 'true' and any(isinstance(n, ScopedNode) for n in preorder(w.body)):
+        if subs and str(subs[0][1]).lower() == 'true' and any(isinstance(n, ScopedNode) for n in preorder(w.body)):
             # rebuild_scopes clones the Source before the children are visited; the in-place invalidation then hits the
             # original object only (Source aliasing, not modelled)
             raise Unsupported('substitution with rebuild_scopes on scoped nodes')
